@@ -14,7 +14,7 @@ TECHNIQUE = ('literal directive tables of SetCookieBuilder::build vs SetCookie::
 LEVEL_TEXT = ('Decides clauses C11-a..d: the directive literals SetCookieBuilder::build emits (`; Expires=` .. `; SameSite=`) are, stripped of `; ` and `=`, exactly '
               'the token array SetCookie::from_raw dispatches on, arm k of the parser assigns the field named by token k, and each emitted directive is guarded by '
               "the field of the same name; SameSitePolicy::as_str and from_bytes are mutually inverse and within RFC 6265bis' vocabulary; the cookie value reaches "
-              'the output only through percent_encode and is read back through checked percent_decode_utf8 after quote stripping; the final from_utf8_unchecked in '
+              'the output only through percent_encode and is read back through checked percent_decode_utf8 after quote stripping (on the request side: every value the value reader of the Cookie decoder answers is the percent-decoding of a sub-slice of the very bytes it validated, with no byte-rewriting step in between); the final from_utf8_unchecked in '
               'build is fed only by bytes of &str values; SetHeaders::SetCookie pushes one element per call and accounts `Set-Cookie: ` + value + CRLF, which is what'
               " the writer emits per element; the per-byte validators of the Cookie decoder let through exactly RFC 6265's cookie-octet alphabet (values) and token "
               'alphabet (names), computed as the value sets reaching the accepting and refusing edges of the match. Decides these clauses, not the round trip for all'
@@ -175,6 +175,38 @@ def c11b(ck, prog):
         aggs = [st["r"] for bb in p.live_blocks() for st in p.blocks[bb]["st"] if st["k"] == "=" and st["r"][0] == "agg" and st["r"][1].get("adt", "").endswith("setcookie::SetCookie")]
         ok = bool(aggs) and "percent_decode_utf8" in decision.describe_deep(p, aggs[0][2][0], 6)
     ck.ob(R, "parser:value-decoded-checked", ok, p.loc(None), "" if ok else "from_raw does not take the cookie value through the checked percent_decode_utf8", how="Cookie: (name, percent_decode_utf8(value)?)")
+    # request side: every value valid::value() answers is the percent-decoding of (a sub-slice of) the bytes it was given
+    # and validated -- no rewriting of bytes (`+` -> space, trimming, case folding) between the validation and the decoding
+    v = prog.one(r"serde_cookie::de::valid::value$")
+    n = 0
+    for bb, kind, payload in paths.ret_sites(v):
+        if kind in ("Err", "residual"):
+            continue
+        n += 1
+        if kind == "call":
+            d = decision.describe_deep(v, ["m", payload.dest] if False else payload.args[0], 12) if payload.name in ("map_err", "map", "or_else") and payload.args else "%s(%s)" % (payload.name, ",".join(decision.describe_deep(v, a, 12) for a in payload.args))
+        elif kind in ("Ok",):
+            d = decision.describe_deep(v, payload[2][0], 12)
+        else:
+            d = "?" + kind
+        m = re.search(r"percent_decode(?:_utf8)?\((.*)$", d)
+        inner = m.group(1) if m else None
+        okv = False
+        if inner is not None:
+            depth, end = 1, 0
+            for end, ch in enumerate(inner):
+                depth += (ch == "(") - (ch == ")")
+                if depth == 0:
+                    break
+            inner = inner[:end]
+            names = set(re.findall(r"([A-Za-z_][A-Za-z_0-9]*)\(", inner))
+            okv = "arg1" in inner and names <= {"index", "get_unchecked", "deref", "len", "strip_prefix", "strip_suffix", "unwrap_or", "and_then", "split_at", "split_first", "split_last"}
+            wrappers = set(re.findall(r"([A-Za-z_][A-Za-z_0-9]*)\(", d[:m.start()]))
+            okv = okv and wrappers <= {"map", "map_err", "from_utf8", "into_owned", "and_then", "ok", "ok_or", "ok_or_else", "from", "into", "Owned", "Borrowed", "from_utf8_lossy"}
+        ck.ob(R, "request-value:decoding-of-the-validated-bytes#%d" % n, okv, v.loc(None),
+              "" if okv else "valid::value() answers `%s`: not the percent-decoding of the bytes it validated (a rewriting step in between changes which string a legal cookie-octet sequence denotes, e.g. `+` read as a space)" % d[:120],
+              how="percent_decode[_utf8] of a sub-slice of the argument")
+    ck.floor(R, "values answered by valid::value", n, 1)
 
 
 def c11c(ck, prog):
